@@ -264,7 +264,8 @@ class MarkdownRenderer(BaseRenderer):
         # note: no word wrapping, because atx headings always fit on a single line.
         line = "#" * token.level
         text = next(self.span_to_lines(token.children, max_line_length=None), "")
-        if text:
+        if text or token.closing_sequence:
+            # without text, the closing sequence still needs two spaces before it, or it would be read as the text
             line += " " + text
         if token.closing_sequence:
             line += " " + token.closing_sequence
